@@ -236,6 +236,26 @@ class C06(AstKindProp):
                     t3 = ast.parse(fh.read())
                 if ast.dump(t3) != ast.dump(tree):
                     fails.append({"what": "emitted over a file holding a near-identical program, the file does not hold the artefact", "variant": label, "kind": c["kind"]})
+            # (2c) APPENDED to a hand-written file (last line terminated or not, a statement or a comment): the file holds
+            # the old statements followed by the artefact
+            for label, old in (("terminated", "VERSION = 1\n"), ("unterminated", "import os\nVERSION = 1"), ("comment", "VERSION = 1\n# the end"), ("blank", "")):
+                for skip_black in ((True, False) if label in ("unterminated", "comment") else (True,)):
+                    fn = os.path.join(d, "app_%s_%s.py" % (label, skip_black))
+                    with open(fn, "w") as fh:
+                        fh.write(old)
+                    E.file(copy.deepcopy(art), fn, mode="a", skip_black=skip_black)
+                    with open(fn) as fh:
+                        text = fh.read()
+                    try:
+                        t4 = ast.parse(text)
+                    except SyntaxError as e:
+                        fails.append({"what": "appended to an existing file, the file is no longer valid Python", "file_ended": label, "skip_black": skip_black, "kind": c["kind"], "exc": exc_kind(e)})
+                        continue
+                    k = len(ast.parse(old).body)
+                    new_part = ast.Module(body=t4.body[k:], type_ignores=[])
+                    same = ast.dump(new_part) == ast.dump(tree) or (not skip_black and ast.dump(_clean_docstrings(new_part)) == ast.dump(_clean_docstrings(tree)))
+                    if ast.dump(ast.Module(body=t4.body[:k], type_ignores=[])) != ast.dump(ast.parse(old)) or not same:
+                        fails.append({"what": "appended to an existing file, the file is not the old statements followed by the artefact", "file_ended": label, "skip_black": skip_black, "kind": c["kind"]})
         except Exception as e:
             fails.append({"what": "emit.file raised", "exc": exc_kind(e), "kind": c["kind"]})
         finally:
